@@ -796,8 +796,16 @@ def icpert_grid(case):
     return bg, t, fd, L, lamb
 
 
-def icpert_residuals(IC, bg, t, fd, L, lamb, amp):
+def icpert_residuals(IC, bg, t, fd, L, lamb, amp, couple=0.0):
     Rc = IC.Rc_func(fd.x, fd.y, fd.z, amp, lamb)
+    if couple:
+        # Rc is a user-supplied field; the module's own Rc_func is a sum of
+        # one-dimensional sines whose mixed second derivatives all vanish, so
+        # a term coupling the three directions is added (same small amplitude)
+        a0 = max(abs(v) for v in amp)
+        Rc = Rc + couple * a0 * (np.sin(2 * np.pi * fd.x / lamb[0])
+                                 * np.cos(2 * np.pi * fd.y / lamb[1])
+                                 * np.sin(2 * np.pi * fd.z / lamb[2]))
     gam = IC.gammadown3(bg, fd, t, Rc)
     K = IC.Kdown3(bg, fd, t, Rc)
     d1 = IC.delta1(bg, fd, t, Rc)
@@ -835,14 +843,18 @@ def test_icpert(case, note):
     note.cls(case["sol"], "t:1e%d" % math.floor(math.log10(t)),
              "nwave=%s" % "".join(str(n) for n in case["nwave"]))
     obs = dict(sol=case["sol"], t=t, L=L, lamb=lamb)
-    r1 = icpert_residuals(IC, bg, t, fd, L, lamb, [eps * v for v in w])
+    cpl = float(case.get("couple", 0.0))
+    note.cls("coupled-Rc" if cpl else "separable-Rc")
+    r1 = icpert_residuals(IC, bg, t, fd, L, lamb, [eps * v for v in w], cpl)
     if r1["d1"] > 0.05:
         # keep the density contrast perturbative (late LCDM: 1/F grows);
         # the amplitude stays a pure function of the case
         eps *= 0.05 / r1["d1"]
         note.cls("amplitude-capped")
-        r1 = icpert_residuals(IC, bg, t, fd, L, lamb, [eps * v for v in w])
-    r2 = icpert_residuals(IC, bg, t, fd, L, lamb, [0.5 * eps * v for v in w])
+        r1 = icpert_residuals(IC, bg, t, fd, L, lamb, [eps * v for v in w],
+                              cpl)
+    r2 = icpert_residuals(IC, bg, t, fd, L, lamb, [0.5 * eps * v for v in w],
+                          cpl)
     note.cls("delta1<0.01" if r1["d1"] < 0.01 else "delta1>=0.01")
     for key, disc in (("ham", "Hamiltonian-1st-order"),
                       ("mom", "Momentum-1st-order")):
@@ -883,7 +895,8 @@ def icpert_case(draw):
         nwave=[draw(st.sampled_from([1, 1, 2])) for _ in range(3)],
         eps=draw(st.floats(2e-3, 1e-2, allow_nan=False)),
         w=[draw(st.sampled_from([1.0, 0.7, 0.4, 0.0, -0.6]))
-           for _ in range(3)])
+           for _ in range(3)],
+        couple=draw(st.sampled_from([0.0, 0.5, 0.8, -0.6])))
 
 
 # ---------------------------------------------------------------------------
@@ -948,6 +961,10 @@ GENERIC_IC = [
          nwave=[1, 1, 2], eps=0.01, w=[1.0, 0.7, 0.4]),
     dict(sol="EdS", t=1500.0, N=[24, 32, 32], ratio=[0.5, 1.2, 2.0],
          nwave=[1, 2, 1], eps=0.004, w=[0.7, -0.6, 1.0]),
+    dict(sol="EdS", t=40.0, N=[24, 32, 24], ratio=[0.8, 1.3, 1.9],
+         nwave=[1, 1, 1], eps=0.006, w=[1.0, 0.4, -0.6], couple=0.8),
+    dict(sol="LCDM", t=300.0, N=[32, 24, 24], ratio=[1.1, 0.6, 1.5],
+         nwave=[1, 1, 2], eps=0.005, w=[0.4, 1.0, 0.7], couple=-0.6),
 ]
 
 
